@@ -547,12 +547,17 @@ func TestVerifWiringC14(t *testing.T) {
 type defScript struct {
 	Conn  rig.ConnScript `json:"conn"`
 	NFail int            `json:"nfail"`
+	// Prior: another client (crypto/tls's own hello, HTTP/2) has been fingerprinted and served before the
+	// connection under test arrives, and stays connected
+	Prior bool `json:"prior,omitempty"`
 }
 
 type defObs struct {
-	res     *rig.ConnResult
-	parsed  *hello.Parsed
-	metrics map[string]float64 // "ok|proto" -> count
+	priorProto string
+	hadPrior   bool
+	res        *rig.ConnResult
+	parsed     *hello.Parsed
+	metrics    map[string]float64 // "ok|proto" -> count
 }
 
 var spoofNames = []string{"X-JA3-Fingerprint", "x-ja3-fingerprint", "X-Ja4-Fingerprint", "X-JA4-FINGERPRINT", "X-HTTP2-Fingerprint", "x-http2-fingerprint",
@@ -560,8 +565,11 @@ var spoofNames = []string{"X-JA3-Fingerprint", "x-ja3-fingerprint", "X-Ja4-Finge
 
 func genDef(t *rapid.T) defScript {
 	s := defScript{Conn: rig.GenConnScript(t), NFail: rapid.IntRange(0, 2).Draw(t, "nfail")}
-	s.Conn.SplitHello = 0 // (two-record hellos are a listed finding of C01/C02; not a wiring matter)
 	s.Conn.Custom = false
+	s.Prior = rapid.Bool().Draw(t, "prior")
+	if s.Conn.SplitHello > 0 && s.Conn.NReq < 2 {
+		s.Conn.NReq = 2 // (the second request on a connection whose fingerprints cannot be computed is the interesting one)
+	}
 	s.Conn.PeerIP = rapid.SampledFrom([]string{"198.51.100.7", "10.1.2.3", "2001:db8::7"}).Draw(t, "ip")
 	n := rapid.IntRange(0, 4).Draw(t, "nspoof")
 	for i := 0; i < n; i++ {
@@ -578,6 +586,14 @@ func runDef(t *testing.T, col *vstat.Collector, s defScript) *defObs {
 	msg := rig.Bubble(t, func() {
 		p := rig.StartProxy(rig.ProxyOpts{Build: wired(nil)})
 		reg := PrometheusRegistry
+		if s.Prior {
+			if pc, err := rig.Connect(p, []string{"h2"}, &net.TCPAddr{IP: net.IPv4(192, 0, 2, 77), Port: 7777}); err == nil {
+				pc.Do(rig.ReqSpec{Method: "GET", Path: "/prior", Authority: "prior.example"})
+				rig.Wait()
+				o.hadPrior, o.priorProto = true, pc.TLS.Proto
+				defer pc.Close()
+			}
+		}
 		o.res = rig.RunConn(p, s.Conn, "w")
 		for i := 0; i < s.NFail; i++ {
 			raw, _, err := p.Ln.Dial(rig.DialOpts{})
@@ -647,6 +663,9 @@ func sniLenKnown(cl []string) bool {
 
 func defCase(col *vstat.Collector, s defScript, o *defObs) {
 	cl := []string{"proto:" + o.res.Proto, fmt.Sprintf("spoofed-headers:%d", min(len(s.Conn.ExtraHeaders), 2)), fmt.Sprintf("failed-conns:%d", s.NFail)}
+	if s.Prior && s.Conn.SplitHello > 0 {
+		cl = append(cl, "two-record-hello-after-another-client-was-fingerprinted")
+	}
 	col.Case(fmt.Sprintf("%x|%v|%d|%v|%d", o.res.Record, s.Conn.Segments, s.Conn.NReq, s.Conn.ExtraHeaders, s.NFail), len(s.Conn.ExtraHeaders) > 0 || s.NFail > 0,
 		map[string]any{"proto": o.res.Proto, "requests": len(o.res.Requests), "client_headers": s.Conn.ExtraHeaders, "failed_conns": s.NFail, "record_len": len(o.res.Record)}, cl...)
 }
@@ -670,6 +689,11 @@ func wiringDefaults(t *testing.T, col *vstat.Collector, judge func(s defScript, 
 			}
 			if sniLenKnown(s.Conn.Classes) {
 				col.Class("discard:sni-length-finding", 1)
+				col.Discard()
+				return nil
+			}
+			if s.Conn.SplitHello > 0 && (col == colC01w || col == colC02w) {
+				col.Class("discard:two-record-hello-finding", 1)
 				col.Discard()
 				return nil
 			}
@@ -718,6 +742,9 @@ func TestVerifWiringC05(t *testing.T) {
 			for _, name := range []string{"X-Ja3-Fingerprint", "X-Ja4-Fingerprint", "X-Http2-Fingerprint"} {
 				got := r.Header.Values(name)
 				w, has := want[name]
+				if s.Conn.SplitHello > 0 && name != "X-Http2-Fingerprint" && len(got) == 0 {
+					continue // the proxy could not compute it for this connection: no header is what the statement allows
+				}
 				if (has && (len(got) != 1 || got[0] != w)) || (!has && len(got) != 0) {
 					return vstat.Violf("wiring:default-injectors|fingerprint-header-not-the-proxys", "request %d (proto %q, client sent %v): backend got %s=%q, the proxy's own value is %q (present=%v)", i, o.res.Proto, s.Conn.ExtraHeaders, name, got, w, has)
 				}
@@ -756,6 +783,7 @@ var colC16w = vstat.New("C16", "c16.wiring")
 func TestVerifWiringC16(t *testing.T) {
 	wiringDefaults(t, colC16w, func(s defScript, o *defObs) *vstat.Violation {
 		want := map[string]float64{"1|" + o.res.Proto: 1}
+		// (the earlier client, if any, is still connected when the metric is read: a connection is counted when it ends)
 		if s.NFail > 0 {
 			want["0|"] = float64(s.NFail)
 		}
